@@ -140,10 +140,32 @@ def rule_time_text(ck):
     good = _re.fullmatch(r"str\(epoch_time_to_utc_datetime\((row\[3\]|\w+)\)\.replace\(tzinfo=None\)\)\.replace\(' ', 'T'\)", txt) is not None
     (o.ok("str(naive utc datetime).replace(' ', 'T')") if good else
      o.fail('the time string is `%s`; the readers expect %%Y-%%m-%%dT%%H:%%M:%%S[.%%f] as produced by str(naive UTC datetime) with " " -> "T"' % txt[:90]))
-    g = P.func('csep.utils.readers.csep_ascii.<locals>.parse_datetime')
-    exg = Expander(P, g)
-    fmts = [const_value(exg.expand(kw(c, 'format', 1))) if kw(c, 'format', 1) is not None else None
-            for c in calls_in(P, g, 'csep.utils.time_utils.strptime_to_utc_epoch')]
+    # the reader side: the formats tried on the time column, wherever the trying is done (the reader itself or the helpers it
+    # calls inside its module)
+    r0 = P.func('csep.utils.readers.csep_ascii')
+    scope, todo = [r0], [(r0, 0)]
+    while todo:
+        cur, d_ = todo.pop()
+        if d_ >= 2:
+            continue
+        for c in all_nodes(cur):
+            if isinstance(c, ast.Call):
+                q = callee(P, cur, c)
+                if q in P.funcs and P.funcs[q].module is r0.module and P.funcs[q] not in scope:
+                    scope.append(P.funcs[q])
+                    todo.append((P.funcs[q], d_ + 1))
+        for q, h in P.funcs.items():
+            if h.parent is cur and h not in scope:
+                scope.append(h)
+                todo.append((h, d_ + 1))
+    fmts, sites = [], []
+    for h in scope:
+        exh = Expander(P, h)
+        for c in calls_in(P, h, 'csep.utils.time_utils.strptime_to_utc_epoch'):
+            a_ = kw(c, 'format', 1)
+            fmts.append(const_value(exh.expand(a_)) if a_ is not None else None)
+            sites.append(h)
+    g = sites[0] if sites else r0
     o = ck.ob('C14-D2.reader', g, fmts, g.node)
     (o.ok() if sorted(map(str, fmts)) == ['%Y-%m-%dT%H:%M:%S', '%Y-%m-%dT%H:%M:%S.%f'] else
      o.fail('the reader tries the formats %s; the writer emits %%Y-%%m-%%dT%%H:%%M:%%S with and without .%%f (whole seconds have no fraction)' % fmts))
